@@ -85,7 +85,7 @@ class C15(Prop):
             'for every save of a sequence the two variants of the sequence in which that save is interrupted after '
             'its 1st / 2nd bucket mutation, the variant in which the store REFUSES its 2nd put (an error answer: the saving code\'s own '
             'handlers run; also on re-saves of stored recordings) and the two in which it refuses the put of the full object; ~12% of the sequences save a recording, delete it by closing a transient cassette on '
-            'its key prefix and save the very same recording again through the same cassette object; three sequences close a transient '
+            'its key prefix and save the very same recording again through the same cassette object (a recording object fetched earlier in the sequence is saved as it is when the save asks for exactly its content); three sequences close a transient '
             'cassette, use it again and close it again; foreign objects include neighbours whose keys only begin like the cassette\'s folders; rarely (~3% of the sequences) a default-prefix cassette next to one with prefix '
             "'full' / 'metadata' (known finding K8); a case is non-trivial when it logged a mutation or refused a write; "
             'distinct = distinct canonical case')
@@ -403,6 +403,7 @@ class C15(Prop):
         cassettes = [mod.S3TapeCassette(BUCKET, key_prefix=c['p'], read_only=c['ro'], transient=c['tr'])
                      for c in case['cfgs']]
         steps = []
+        fetched_objs, reused = {}, []
         for op in case['ops']:
             c = cassettes[op['c']]
             cfg = case['cfgs'][op['c']]
@@ -422,10 +423,17 @@ class C15(Prop):
                     FAKE_UUID.cur = op['uid']
                     res = {'id': c.create_new_recording(op['cat']).id}
                 elif kind in ('save', 'savecrash'):
-                    rec = MemoryRecording(op['id'])
-                    rec.set_data('k', 1)
-                    if 'md' in op:
-                        rec.add_metadata(to_py({'d': op['md']}))
+                    # a recording fetched earlier in the sequence and saved unchanged (promoting / restoring a recording) is the
+                    # same request as saving a freshly built recording with that id, data and metadata
+                    want_md = to_py({'d': op['md']}) if 'md' in op else {}
+                    rec = fetched_objs.get(op['id'])
+                    if rec is None or rec.get_metadata() != want_md or sorted(rec.get_all_keys()) != ['k']:
+                        rec = MemoryRecording(op['id'])
+                        rec.set_data('k', 1)
+                        if 'md' in op:
+                            rec.add_metadata(want_md)
+                    else:
+                        reused.append(op['id'])
                     if kind == 'savecrash':
                         if op['k'] == 0:
                             st.reject_full = op.get('reject', 1)      # the store refuses the put(s) of the full object
@@ -443,7 +451,7 @@ class C15(Prop):
                         st.reject_full = 0
                         st.reject_put_no = 0
                 elif kind == 'get':
-                    c.get_recording(op['id'])
+                    fetched_objs[op['id']] = c.get_recording(op['id'])
                     res = 'found'
                 elif kind == 'getmeta':
                     c.get_recording_metadata(op['id'])
@@ -483,7 +491,7 @@ class C15(Prop):
                     'visible_others_before': vis_others_before,
                     'visible_others': {q: self._visible(mod.S3TapeCassette, q) for q in others}}
             steps.append(step)
-        return {'steps': steps}
+        return {'steps': steps, '_reused': len(reused)}
 
     def impl_view(self, case, impl):
         return {'steps': [{k: s[k] for k in VIEW_KEYS} for s in impl['steps']]}
@@ -620,6 +628,8 @@ class C15(Prop):
         out = set()
         out.add('cassettes:%d' % len(case['cfgs']))
         out.add('ops:%d' % len(case['ops']))
+        if isinstance(impl, dict) and impl.get('_reused'):
+            out.add('save:fetched-recording-object-saved-unchanged')
         ps = [c['p'] for c in case['cfgs']]
         if len(set(ps)) < len(ps):
             out.add('cfg:same-prefix-twice')
